@@ -146,7 +146,9 @@ func TestBSeq(t *testing.T) {
 			}{
 				{"seq.FlatMap", want, func(base fp.Seq[int], f func(int) fp.Seq[int]) fp.Seq[int] { return seq.FlatMap(bMkSeq(kind, m), f) }},
 				{"seq.method.FlatMap", want, func(base fp.Seq[int], f func(int) fp.Seq[int]) fp.Seq[int] { return bMkSeq(kind, m).FlatMap(f) }},
-				{"seq.Flatten", want, func(base fp.Seq[int], f func(int) fp.Seq[int]) fp.Seq[int] { return seq.Flatten(seq.Map(bMkSeq(kind, m), f)) }},
+				{"seq.Flatten", want, func(base fp.Seq[int], f func(int) fp.Seq[int]) fp.Seq[int] {
+					return seq.Flatten(seq.Map(bMkSeq(kind, m), f))
+				}},
 				{"seq.Compose", want, func(base fp.Seq[int], f func(int) fp.Seq[int]) fp.Seq[int] {
 					return seq.Compose(func(int) fp.Seq[int] { return bMkSeq(kind, m) }, f)(0)
 				}},
